@@ -61,8 +61,18 @@ func (b *bctx) ruleJSONNumbers() {
 				}
 			}
 		}
+		// the specials table and AppendFloat are the only producers of float text: no other return path
+		nret := 0
+		walkBlock(ir.Body, nil, func(n Node, _ []Guard) {
+			if _, ok := n.(*ReturnN); ok {
+				nret++
+			}
+		})
+		if nret != 2 {
+			special = false
+		}
 		want := "buf, val, #102, #-1, " + bitsz
-		b.ob("json-float-writer", name, special && plain == want, fmt.Sprintf("specials handled first=%v; strconv.AppendFloat(%s) want (%s) [shortest round-trip form 'f', precision -1, bit size of the argument]", special, plain, want))
+		b.ob("json-float-writer", name, special && plain == want, fmt.Sprintf("specials handled first and no other producer of float text (return paths: %d, want 2)=%v; strconv.AppendFloat(%s) want (%s) [shortest round-trip form 'f', precision -1, bit size of the argument]", nret, special, plain, want))
 	}
 	if ir := b.ir("jsonWriteFloatSpecial"); ir != nil {
 		got := map[string]string{}
